@@ -67,9 +67,9 @@ add("C33", "lang_mc", "exploration",
     "Every content of <= N segments over a signing-related alphabet containing the signing token 1-3 times is signed and verified; then every single-character replace/delete/insert at every position outside the hex signature must break verification.",
     "Trusted: md5 via the crate's own dependency; contents with bare NEWTOKEN or pre-signed markers are not enumerated.", "bounded exhaustive input and edit enumeration", "2/C33")
 
-comp_note = ("Trusted: one universe schema (objects, interface, union, enum, input objects, custom scalar, Mutation + @exposeField) and menu-based program enumeration (mc/comp_mc/src/progx.rs): every combination of menu selections up to k nodes, nesting <= 2, in program templates (single field + entrypoint, child field reused under two parents, cyclic pairs). Programs are compiled by the real compiler from a real project directory in /dev/shm, each shard in its own process.")
+comp_note = ("Trusted: one universe schema (objects, interface, union, enum, input objects, custom scalar, Mutation + @exposeField) and menu-based program enumeration (mc/comp_mc/src/progx.rs): every combination of menu selections up to k nodes, nesting <= 2-3, in program templates (single field + entrypoint; child field reused under two parents; client field on a type without id; cyclic pairs; parameterised client fields; parent and child overlapping in nested linked fields; client pointers with concrete, abstract and list targets, also through a child client field; declaration shapes on every kind of parent type with entrypoints). Programs are compiled by the real compiler from a real project directory in /dev/shm, each shard in its own process.")
 add("C08", "comp_mc", "exploration",
-    "Every program of four families (general, arguments, abstract types, cycles: every pair of selection sets for two client fields that may select themselves and each other) is compiled by the real batch compiler in a crash-isolated worker process; a panic, abort, stack overflow or a failure without diagnostics is a violation, attributed to the exact program.",
+    "Every program of the families (general, arguments, abstract types, cycles: every pair of selection sets for two client fields that may select themselves and each other, parameterised client fields, overlap, pointers, declaration shapes) is compiled by the real batch compiler in a crash-isolated worker process; a panic, abort, stack overflow or a failure without diagnostics is a violation, attributed to the exact program.",
     comp_note, "bounded exhaustive program enumeration on the real compiler with process-level crash isolation", "2/C08")
 add("C09", "comp_mc", "exploration",
     "For every accepted program of the families, every query_text / refetch query_text artifact is evaluated to the string the runtime reads (swc, cooked string) and validated against the schema: parses (relay graphql-syntax), fields exist, leaf/composite shape, arguments defined/required/coercible, variables declared/used/compatible (also inside object values), fragment conditions applicable, response names mergeable.",
@@ -88,7 +88,7 @@ add("C15", "comp_mc", "exploration",
     "Metamorphic, exhaustive per accepted base program: every permutation of every selection set, every duplication of one plain server selection under a fresh alias, every extraction of a contiguous variable-free run into a new client field selected at the same place; the entrypoint's operation text, normalization AST and refetch artifacts must be byte-identical to the base.",
     comp_note, "exhaustive metamorphic variant enumeration on the real compiler", "2/C15")
 add("C17", "comp_mc", "exploration",
-    "Every accepted program P x 6 invalid variants Q (parse error, undefined field, undefined entrypoint, duplicate selection, schema syntax error, new file with undefined parent type) x {fresh batch compile, watch-mode recompile in the same compiler state through update_sources}: the compile must report errors and a snapshot of the artifact directory (paths, bytes, mtimes, directories) must be unchanged.",
+    "Every accepted program P x 20 single-error invalid variants Q (one error class each: parse error, undefined field / entrypoint / variable / argument / parent type / pointer target / variable type, duplicate selection, duplicate field or pointer definition in the same or a new file, unknown or misplaced directive, scalar/object shape, missing required argument, entrypoint on a non-fetchable type, schema syntax error, schema referencing an undefined type) x {fresh batch compile, watch-mode recompile in the same compiler state through update_sources}: the compile must report errors and a snapshot of the artifact directory (paths, bytes, mtimes, directories) must be unchanged.",
     comp_note, "exhaustive (valid, invalid) program pair enumeration with directory snapshots", "2/C17")
 add("C26", "comp_mc", "exploration",
     "Every accepted program x {md5, sha256} x {extra info} x {default/custom file name}: every operationId found in any artifact (swc evaluation) is a key of the documents file and equals the configured hash of the recorded text; the recorded text tokenises to the plain build's operation; file keys = referenced ids; every operation of the plain build is persisted.",
@@ -100,6 +100,24 @@ add("C12", "comp_mc", "exploration",
 add("C16", "comp_mc", "exploration",
     "Every well-typed generated program must compile; every single-fault mutant of every program (undefined field, object without / scalar with selection set, undefined argument, missing required argument, incompatible literal or variable type incl. nullability and input-object fields, undeclared / unused variable, duplicate response name; one fault at one position) must be rejected with a diagnostic.",
     comp_note + " Mutants break exactly one rule by construction; the menus' type-correctness is cross-checked by C09's validator.", "exhaustive single-fault mutant enumeration on the real compiler", "2/C16")
+
+lsp_note = ("Trusted: the UTF-16 reference (mc/lsp_mc/src/text.rs), the position-free projection of parsed literals (proj.rs), the isogen grammar; the server is the real LspState with every handler called in-process over a project in /dev/shm.")
+add("C21", "lsp_mc", "model_checking",
+    "Explicit-state exploration of editor histories on the real LspState: every sequence up to depth d over {didOpen/didChange/didClose of 2 files with 3 contents each, on-disk edits, validate, queries}, from a fresh server and from a server that already validated once; after every history the client view (latest published diagnostics per URI; semantic tokens, formatting, hover and definition at fixed positions of every file) must equal that of a fresh server started on the same disk contents and open buffers.",
+    lsp_note + " A state is a history (no state merging); depth bound reported in the evidence.", "bounded exhaustive history enumeration on the real server vs fresh-server differential oracle", "2/C21")
+add("C22", "lsp_mc", "exploration",
+    "Every grammar sentence up to N tokens (plain and rich alphabets, argument / variable-definition / directive families) that the parser accepts x 6 separator layouts x 5 document prefixes (ASCII, non-ASCII BMP, non-BMP, multi-line): the real on_format output is parsed again and must denote the same declaration (position-free projection), formatting it again must change nothing, and each returned edit range must be exactly the literal's text under UTF-16 columns.",
+    lsp_note, "bounded exhaustive grammar-directed input enumeration on the real formatter with a re-parse oracle", "2/C22")
+add("C23", "lsp_mc", "exploration",
+    "Every document of a corpus (1-2 literals x 5 prefixes x leads x fillers, every rich grammar sentence up to N tokens as a single-literal document, plus one fault variant per literal for diagnostics): every semantic token, diagnostic range, formatting edit and definition range is decoded under the UTF-16 convention and must designate exactly the source text it describes (tokens strictly increasing, non-overlapping, one source token each); hover and go-to-definition are queried at every character boundary and must answer for the node at that byte offset.",
+    lsp_note + " Hover answers carry no range; a length running past the end of a line is accepted (the protocol clamps).", "bounded exhaustive document x position enumeration on the real server vs UTF-16 reference", "2/C23")
+gql_note = ("Trusted: the hand-written reference lexer/parser of the June 2018 grammar in mc/gql_mc/src/reference (one function per production; no second GraphQL implementation is available offline), cross-checked against its own sentence enumerator on every sentence.")
+add("C29", "gql_mc", "exploration",
+    "Every sentence of the executable and type-system grammars up to N tokens, every token prefix alone and extended by each token of a 131-token alphabet, separator variants per gap (comma, LF, CR, CRLF, tab, BOM, comment, nothing), and every single-token replace/insert/delete of every sentence up to M tokens is parsed by relay's graphql-syntax and by the reference: no panic, accept <=> the June 2018 grammar accepts, equal trees (names, arguments, values, block-string values), and print -> re-parse of every accepted schema yields an equal tree.",
+    gql_note, "bounded exhaustive grammar-directed input and edit enumeration vs reference parser", "2/C29")
+add("C30", "gql_mc", "exploration",
+    "The same type-system inputs through graphql_schema_parser::parse_schema and parse_schema_extensions: no panic, accept <=> valid SDL (June 2018 grammar plus the four October 2021 SDL additions the parser has explicit code for) inside the supported subset read off the parser's match arms, and the tree read (descriptions, names, interfaces, fields, arguments, types, default values, directives, union members, enum values, locations, root operation types) equals the reference tree.",
+    gql_note + " String values are compared as values (the codebase keeps them in quoted source form); integer literals outside i64 are outside the subset.", "bounded exhaustive grammar-directed input and edit enumeration vs reference parser", "2/C30")
 
 props = [json.loads(l)["id"] for l in open(os.path.join(ROOT, "properties.jsonl"))]
 claimed = {c["property_id"] for c in checks}
@@ -120,6 +138,8 @@ m = {
         {"name": "fs_mc", "path": "/verif/mc/fs_mc", "serves_properties": ["C18", "C19"], "kind_free_text": "explicit-state exploration of artifact-directory sessions and exhaustive fault-point enumeration on the real planner/applier over a real directory in /dev/shm"},
         {"name": "lang_mc", "path": "/verif/mc/lang_mc", "serves_properties": ["C07", "C31", "C32", "C33"], "kind_free_text": "bounded-exhaustive input explorers (grammar-directed token enumeration, text/span enumeration) on the real parser, excerpt renderer, position resolver and signer"},
         {"name": "comp_mc", "path": "/verif/mc/comp_mc", "serves_properties": ["C08", "C09", "C11", "C12", "C13", "C14", "C15", "C16", "C17", "C26"], "kind_free_text": "progx: bounded-exhaustive program enumeration compiled by the real compiler (crash-isolated workers) with per-property oracles (swc TypeScript parser/evaluator, GraphQL validator)"},
+        {"name": "lsp_mc", "path": "/verif/mc/lsp_mc", "serves_properties": ["C21", "C22", "C23"], "kind_free_text": "explicit-state history explorer on the real LspState (fresh-server differential oracle) and bounded-exhaustive document/position enumeration vs a UTF-16 reference"},
+        {"name": "gql_mc", "path": "/verif/mc/gql_mc", "serves_properties": ["C29", "C30"], "kind_free_text": "bounded-exhaustive sentence / prefix / separator / single-edit enumeration of GraphQL documents through relay's graphql-syntax and isograph's schema parser vs a reference lexer+parser of the June 2018 grammar"},
         {"name": "intern_mc", "path": "/verif/mc/intern_mc", "serves_properties": ["C05", "C06"], "kind_free_text": "loom models over the real intern crate (cfg shim) + bounded-exhaustive sequential sweep"},
     ],
     "checks": checks,
